@@ -15,7 +15,8 @@ pub struct AgentProp {
 
 pub fn test_history(p: &AgentProp, h: &History, st: &mut Stats) -> TestResult {
     st.eval();
-    let r = guard(|| agentsim::run_history(h)).map_err(|pn| Fail::new(&format!("{}-panic", p.tag.to_lowercase()), format!("the agent panicked: {}", pn)))?;
+    let info = guard(|| agentsim::run_history_info(h)).map_err(|pn| Fail::new(&format!("{}-panic", p.tag.to_lowercase()), format!("the agent panicked: {}", pn)))?;
+    let r = info.result;
     match r {
         Ok(sum) => {
             st.class(if h.tcp { "transport TCP" } else { "transport UDP" });
@@ -30,6 +31,36 @@ pub fn test_history(p: &AgentProp, h: &History, st: &mut Stats) -> TestResult {
             if d.tag == p.tag {
                 Err(Fail::new(&d.sig, d.msg))
             } else {
+                // C05 / C07 state that certain calls change nothing (refused duplicate send, messages for
+                // ids that are not outstanding, incoming requests; forged responses). If the history
+                // only goes wrong because such a call is present, the blame is this property's:
+                // control run = the same history without those calls.
+                let removable: &[usize] = match p.tag {
+                    "C05" => &info.noeffect,
+                    "C07" => &info.forged,
+                    _ => &[],
+                };
+                if removable.iter().any(|s| *s <= d.step) {
+                    let control = agentsim::without_steps(h, removable);
+                    let control_ok = (0..3).all(|_| matches!(guard(|| agentsim::run_history(&control)), Ok(Ok(_))));
+                    let original_fails = (0..3).filter(|_| !matches!(guard(|| agentsim::run_history(h)), Ok(Ok(_)))).count() >= 3;
+                    if control_ok && original_fails {
+                        let which = if p.tag == "C05" {
+                            "calls that must change nothing (refused duplicate send / message for an id that is not outstanding / incoming request / non-request send)"
+                        } else {
+                            "responses that must be dropped (no, wrong or corrupted integrity, or no remote credentials)"
+                        };
+                        return Err(Fail::new(
+                            &format!("{}-noeffect-call-had-effect", p.tag.to_lowercase()),
+                            format!(
+                                "the history goes wrong only because of {} at steps {:?}: with them the agent deviates ({}), without them it behaves correctly",
+                                which,
+                                removable.iter().filter(|s| **s <= d.step).collect::<Vec<_>>(),
+                                d.msg
+                            ),
+                        ));
+                    }
+                }
                 // a discrepancy that another property states: left to that property's check
                 st.class(&format!("history ended by a discrepancy belonging to {} (not judged here)", d.tag));
                 Ok(())
